@@ -11,7 +11,16 @@ claim('C16',
       '6/7 characters and all bytes shebang lines up to 3/4 bytes with three newline conventions and coding cookies.',
       'Trusted: CrossHair regex/str/bytes models, CPython decoding inside ast.parse (outside the claim). ast.parse/unparse stubbed.',
       'CrossHair symbolic execution of minify/_find_shebang, z3 decides each path', 'DESIGN.md 4/C16')
-for _p in ['C02', 'C03', 'C04', 'C05', 'C06', 'C07', 'C08', 'C09', 'C10', 'C11', 'C12', 'C13', 'C15']:
+claim('C13',
+      'Flags -> namespace for all 2^19 flag subsets is one z3 query over the action table read from the real parser object '
+      '(documented table written from the docs); namespace -> minify keywords, argument validation and preserve-list '
+      'splitting are bounded symbolic executions of the real do_minify/parse_args/main. Right level: the space is 2^19 and '
+      'tests pass no --no-* flag at all; the solver covers every subset.',
+      'Trusted: the hand model of argparse store_true/store_false/append semantics (validated every run on solver-chosen witness '
+      'subsets against the real parser), the documented flag table in vf/smtq.py, CrossHair/z3, the in-memory CLI environment. '
+      'Bytes written for a given API result are decided under C14.',
+      'z3 query over the real argparse table + CrossHair symbolic execution of do_minify/parse_args/main', 'DESIGN.md 4/C13')
+for _p in ['C02', 'C03', 'C04', 'C05', 'C06', 'C07', 'C08', 'C09', 'C10', 'C11', 'C12', 'C15']:
     na(_p, 'check not built yet in this revision (planned: see DESIGN.md section 4); will be claimed when its harness lands')
 na('C01', 'needs the run-time semantics of arbitrary modules (observational equivalence of two program runs); nothing a solver can '
           'encode - the mechanisms behind it are decided under C02-C09 (DESIGN.md 4/C01)')
